@@ -300,7 +300,7 @@ def run(chk):
     genrules.r01_dual(chk, rule="R16-dual-aux", inc_rule="R16-writer")
     chk.findings = [f for f in chk.findings if f.rule in ("R16-merge", "R16-writer")]
     chk.rules = [r for r in chk.rules if r["rule"] in ("R16-merge", "R16-writer")]
-    genrules.expansion_diffs(chk, "R16-shipped", lambda k: "merge_includes" in k,
+    genrules.expansion_diffs(chk, "R16-shipped", lambda k: "merge_includes" in k or re.search(r"\bA2ml\b.*\bparse\b", k) is not None,
                              "generated A2lObject impls (merge_includes/reset_location) identical (canonical form) to the generator's output")
     from . import writertab
     writertab.compare(chk, "R16-group", fn_filter=lambda fn: fn.split("::")[-1] in ("add_group",), floor=15)
